@@ -1068,7 +1068,13 @@ func mMutexLock(fr *frame, args []value) (value, bool) {
 	p := args[0].(*value)
 	cur.sched.schedPoint()
 	if cur.locks[p] || cur.rlocks[p] > 0 {
+		// a waiting writer blocks new readers (Go's RWMutex prefers writers)
+		if cur.wwait == nil {
+			cur.wwait = map[*value]int{}
+		}
+		cur.wwait[p]++
 		cur.sched.block(func() bool { return !cur.locks[p] && cur.rlocks[p] == 0 }, "sync.Mutex.Lock")
+		cur.wwait[p]--
 	}
 	cur.locks[p] = true
 	cur.sched.logLock(evLock, p)
@@ -1089,8 +1095,8 @@ func mMutexUnlock(fr *frame, args []value) (value, bool) {
 func mRLock(fr *frame, args []value) (value, bool) {
 	p := args[0].(*value)
 	cur.sched.schedPoint()
-	if cur.locks[p] {
-		cur.sched.block(func() bool { return !cur.locks[p] }, "sync.RWMutex.RLock")
+	if cur.locks[p] || cur.wwait[p] > 0 {
+		cur.sched.block(func() bool { return !cur.locks[p] && cur.wwait[p] == 0 }, "sync.RWMutex.RLock")
 	}
 	if cur.rlocks == nil {
 		cur.rlocks = map[*value]int{}
